@@ -36,6 +36,44 @@ func File(src []byte, accessFields, accessCalls []string) ([]byte, Stats, error)
 	if err != nil {
 		return nil, st, err
 	}
+	// "*" in accessFields: the unexported fields of every struct that holds a sync.Mutex / sync.RWMutex (the
+	// state that mutex protects), so that renamed or added fields are followed without editing the harness
+	if len(accessFields) == 1 && accessFields[0] == "*" {
+		accessFields = nil
+		ast.Inspect(f, func(n ast.Node) bool {
+			stt, ok := n.(*ast.StructType)
+			if !ok || stt.Fields == nil {
+				return true
+			}
+			isMu := func(e ast.Expr) bool {
+				se, ok := e.(*ast.SelectorExpr)
+				if !ok {
+					return false
+				}
+				id, ok := se.X.(*ast.Ident)
+				return ok && id.Name == "sync" && (se.Sel.Name == "Mutex" || se.Sel.Name == "RWMutex")
+			}
+			has := false
+			for _, fl := range stt.Fields.List {
+				if isMu(fl.Type) {
+					has = true
+				}
+			}
+			if has {
+				for _, fl := range stt.Fields.List {
+					if isMu(fl.Type) {
+						continue
+					}
+					for _, nm := range fl.Names {
+						if !nm.IsExported() {
+							accessFields = append(accessFields, nm.Name)
+						}
+					}
+				}
+			}
+			return true
+		})
+	}
 	// 1. import
 	for _, im := range f.Imports {
 		if p, _ := strconv.Unquote(im.Path.Value); p == "sync" {
